@@ -67,6 +67,23 @@ def shards(tier, seed):
     return out
 
 
+def atom_order(n, mode):
+    """Permutation of the n atoms of the cluster scenario: 0 = as built (Li, centres, satellites, Li),
+    1 = satellites before centres, 2 = per-molecule order (centre, its 4 satellites, next centre, ...)."""
+    idx = list(range(n))
+    nC = (n - 2) // 5
+    cen = list(range(1, 1 + nC))
+    sat = list(range(1 + nC, 1 + 5 * nC))
+    if mode == 1:
+        return [0] + sat + cen + [n - 1]
+    if mode == 2:
+        out = [0]
+        for c in range(nC):
+            out += [cen[c]] + sat[4 * c: 4 * c + 4]
+        return out + [n - 1]
+    return idx
+
+
 def build_cluster_traj(M, centres, R0, bond, T):
     """-> wrapped coords (T, N, 3), species, expected vectors (T, n_cent*4, 3)."""
     M = np.asarray(M)
@@ -98,7 +115,10 @@ def eval_bonds(M, centres, oi, bond, T, res: Result):
     case = {'M': np.asarray(M).tolist(), 'centres': centres, 'orientation': oi, 'bond': bond, 'T': T}
     M = np.asarray(M)
     w, species, exp = build_cluster_traj(M, centres, orientations12()[oi], bond, T)
-    traj = concretise.make_trajectory(w, species, M, time_step=1e-15)
+    # the order of the atoms in the trajectory is free: centres first / satellites first / molecule by molecule
+    perm = atom_order(len(species), (oi + T) % 3)
+    w_traj = w[:, perm, :]
+    traj = concretise.make_trajectory(w_traj, [species[i] for i in perm], M, time_step=1e-15)
     res.evals += 1
     try:
         o = Orientations(traj, center_type='S', satellite_type='O')
@@ -252,6 +272,22 @@ def run_shard(shard) -> Result:
                 if exp != got:
                     res.violation('symmetrize-not-the-group-images', case, f'frame {t}: {sum((exp - got).values())} images missing, {sum((got - exp).values())} spurious')
                     break
+        # a long trajectory (more frames than any plausible block size): every frame must be symmetrised
+        if pg in ('2/m', '-43m'):
+            Tl = 2500
+            tt = np.arange(Tl)[:, None]
+            big = np.stack([np.stack([np.cos(0.01 * tt[:, 0] + b), np.sin(0.013 * tt[:, 0] + 2 * b), 0.3 + 0.001 * tt[:, 0]], axis=-1) for b in range(2)], axis=1)
+            try:
+                outb = np.asarray(mk_orient(big).symmetrize(sym_group=pg).vectors)
+                res.evals += 40
+                for t in list(range(3)) + list(range(2045, 2052)) + list(range(Tl - 5, Tl)) + list(range(97, Tl, 97)):
+                    exp = Counter(tuple(np.round(r @ v, 6) + 0.0) for v in big[t] for r in R)
+                    got = Counter(tuple(np.round(x, 6) + 0.0) for x in outb[t])
+                    if exp != got:
+                        res.violation('symmetrize-not-the-group-images', {'pg': pg, 'long': True}, f'long trajectory ({Tl} frames): frame {t} wrong')
+                        break
+            except Exception as e:  # noqa: BLE001
+                res.violation(f'symmetrize-raise-{type(e).__name__}', {'pg': pg, 'long': True}, str(e))
         # explicit operation stack (sym_ops given by the user: stack[:, :, k] applied like the group's)
         res.sample({'point_group': pg, 'n_operations': len(R), 'vectors': vecs[0].tolist()})
     elif kind == 'transform':
